@@ -105,6 +105,18 @@ func c08CompareTrees(r *sim.Run, fm, fl *mp4.File, top []*ref.Box) []mdatPair {
 	if fm.Size() != fl.Size() {
 		r.Violate("c08-tree", "File.Size in-memory %d lazy %d", fm.Size(), fl.Size())
 	}
+	// File.Mdat (the media data box of a progressive file) must be the same top-level box in both modes
+	idxOf := func(f *mp4.File) int {
+		for i, c := range f.Children {
+			if m, ok := c.(*mp4.MdatBox); ok && m == f.Mdat {
+				return i
+			}
+		}
+		return -1
+	}
+	if a, b := idxOf(fm), idxOf(fl); a != b {
+		r.Violate("c08-tree", "File.Mdat is top-level box %d in in-memory mode but box %d in lazy mode", a, b)
+	}
 	if fm.IsFragmented() != fl.IsFragmented() || len(fm.Segments) != len(fl.Segments) {
 		r.Violate("c08-tree", "fragmented/segments differ: %v/%d vs %v/%d", fm.IsFragmented(), len(fm.Segments), fl.IsFragmented(), len(fl.Segments))
 		return pairs
